@@ -35,6 +35,7 @@ ASSUMPTIONS = [
 ]
 MIN_NONTRIVIAL = {'quick': 4000, 'thorough': 100000}
 REQUIRED_MONITORS = ['forced:init-keyword', 'forced:config',
+                     'forced:config-object-reused',
                      'forced:parse-argument', 'fallback', 'no-two-full',
                      'hook:ChunkParser.__init__', 'hook:parse_safe']
 
@@ -101,6 +102,14 @@ def run_forced(case, ctx, rec, pytrs):
                     tracts, pp, cur = d.tracts, d.pp_desc, d.current_layout
                 elif channel == 'config':
                     cfg = 'copy_all' + (',' + extra if extra else '')
+                    d = pytrs.PLSSDesc(text, config=cfg)
+                    tracts, pp, cur = d.tracts, d.pp_desc, d.current_layout
+                elif channel == 'config-object-reused':
+                    # one Config object shared by two descriptions
+                    cfg = pytrs.Config('copy_all' + (',' + extra if extra else ''))
+                    pytrs.PLSSDesc('T154N-R97W Sec 14: NE/4, Sec 15: W/2',
+                                   config=cfg).parse()
+                    rec.reset()
                     d = pytrs.PLSSDesc(text, config=cfg)
                     tracts, pp, cur = d.tracts, d.pp_desc, d.current_layout
                 else:
@@ -220,7 +229,8 @@ def run_shard(shard, ctx):
             case = {'text': text, 'family': fam,
                     'extra': rng.choice(EXTRA_CFG),
                     'channel': rng.choice(['init-keyword', 'config',
-                                           'parse-argument'])}
+                                           'parse-argument',
+                                           'config-object-reused'])}
             run_forced(case, ctx, rec, pytrs)
         else:
             run_fallback(gen_fallback(rng), ctx, rec, pytrs)
